@@ -23,6 +23,7 @@ DEPTH = {"quick": 2, "thorough": 3}
 SLICES = {"quick": 4, "thorough": 24}
 VARIANTS = {"quick": (0, 1), "thorough": (0, 1, 2, 3)}
 RESTRICTED = ("R3", "R5", "R6", "R8")
+LEVEL2_QUICK = ("R2", "R3", "R4", "R5", "R6", "R8")  # quick tier: the second rewrite is a feature-interaction kind
 
 
 def shards(tier, seed):
@@ -116,11 +117,12 @@ def _shard_sel(item, out):
     engine = explore.engine_for("K", schema)
     seed_doc = doc.parse(_seed_text(si))
     depth = DEPTH[tier]
-    kinds_by_level = {depth + 1: RESTRICTED} if False else None
+    kinds_by_level = {2: LEVEL2_QUICK} if tier == "quick" else None
     roots = {}
     stats = None
     for d, level, trail, stats in explore.bfs(schema, seed_doc, depth, kinds_by_level, (k, n)):
-        text = run_cases(schema, engine, d, trail, VARIANTS[tier], out, roots=roots)
+        variants = VARIANTS[tier] if (level < 2 or tier != "quick") else VARIANTS[tier][-1:]
+        text = run_cases(schema, engine, d, trail, variants, out, roots=roots)
         out["counts"]["states"] += 1
         out["sets"]["state_hashes"].add(explore.h64(text))
         if level >= 2 and len(set(trail)) >= 2:
@@ -299,7 +301,7 @@ def finish(agg, tier):
                 "operation name x variable assignment x %d data trees on the real engine and compared with E5 (ordered data, "
                 "resolver-call multiset). non-trivial = reached by >= 2 different rewrite kinds (feature interaction), or a "
                 "type-resolver configuration state" % (DEPTH[tier], len(seeds.K_DOCS) + len(seeds.K_MUTATIONS), len(VARIANTS[tier])),
-        "bounds": {"rewrite_depth": DEPTH[tier], "data_variants": len(VARIANTS[tier]), "type_resolver_configs": 16},
+        "bounds": {"rewrite_depth": DEPTH[tier], "level2_kinds": list(LEVEL2_QUICK) if tier == "quick" else "all", "data_variants": len(VARIANTS[tier]), "type_resolver_configs": 16},
         "exhaustive": True,
     }
 
